@@ -396,7 +396,9 @@ def run(ctx):
                 return out
             return w
         try:
-            m = umap.UMAP(n_neighbors=7, n_epochs=30, random_state=11, output_metric=om).fit(Xr)
+            # many neighbours and a long schedule: a new point next to one training sample has edges far below w_max / n_epochs
+            m = umap.UMAP(n_neighbors=25 if om == "euclidean" else 7, n_epochs=240 if om == "euclidean" else 30, random_state=11,
+                          output_metric=om).fit(Xr)
             emb0 = m.embedding_.copy()
             for nm in orig:
                 setattr(UU, nm, wrap(nm))
@@ -413,6 +415,7 @@ def run(ctx):
                 ctx.violation("frozen-reference", f"transform (output_metric={om}): {nm} moved the reference layout it was given by up to {dmax}", case)
         if not np.array_equal(m.embedding_, emb0, equal_nan=True):
             ctx.violation("frozen-reference", f"transform (output_metric={om}) changed embedding_", case)
+        ctx.bin("transform_weak_edges_seen", bool(any(len(e_) and float(np.max(e_)) > n_ for e_, n_ in sched if isinstance(n_, (int, float)))))
         for eps_, ne_ in sched:
             # an edge handed to the scheduler is due when its clock <= epoch: a non-positive period (the -1 the schedule builder gives
             # a zero weight) means "used in every epoch" — exactly the edges that must never be used
